@@ -1,5 +1,173 @@
-import CachedModel
+/-
+  C16  Statistics are exact at quiescence.
+
+  "hits + misses = number of key lookups, keys added − keys deleted = number of keys held,
+   weight added − weight removed = total weight used (mod 2^64), rejected keys = number of puts refused
+   by admission."
+
+  Proved for EVERY Layer A state reachable before `shutdown()` — not only the quiescent ones: in Layer A each
+  event runs atomically, so the identities hold between any two events; quiescence (empty command queue, no
+  parked call) is just a special case.  `ReachG` is reachability with the ghost counters of
+  `Lemmas/StatsInv.lean`: `g.lookups` counts the keys looked up by `get`/`multi_get` calls that passed the
+  shutdown check, `g.refused` the worker's puts answered `rejected noSpace` / `rejected tooHeavy`.
+  Quantifiers: every configuration, start time, seed list, every history and every oracle.
+
+  Scope: `s.shutting = false`.  `shutdown()` resets all ten counters (`shutdownFinish`: `stats := {}`), and
+  lookups after it return early without counting, so afterwards only the trivial identities remain.
+
+  Not in the Lean model: the hit ratio.  It is a float computed in Rust from the two counters; the harness
+  checks it bit-for-bit against hits / (hits + misses) computed from the model's `hits` and `misses`
+  (monitor of the check pipeline), so it adds nothing to prove here.
+-/
+import CachedProofs.Lemmas.StatsInv
 
 namespace Cached
+
+/-! ### 1. the four identities -/
+
+theorem C16_exact {cfg : Cfg} {now : Nat} {seeds : List Nat} {s : State} {g : Ghost}
+    (hr : ReachG cfg now seeds s g) (hs : s.shutting = false) :
+    s.stats.hits + s.stats.misses = g.lookups ∧
+    s.stats.keysAdded = s.stats.keysDeleted + s.store.length ∧
+    ((s.stats.weightAdded : Int) - s.stats.weightRemoved - s.adm.used) % (u64Mod : Int) = 0 ∧
+    s.stats.keysRejected = g.refused := by
+  have h := reachG_sinv hr hs
+  exact ⟨h.lookups, h.keys, h.weight, h.refused⟩
+
+/-- What makes `store.length` "the number of keys held" and the subtraction meaningful: no key is stored twice,
+    and every charged weight (hence the total) is built from weights `≥ 0`. -/
+theorem C16_exact_side {cfg : Cfg} {now : Nat} {seeds : List Nat} {s : State} {g : Ghost}
+    (hr : ReachG cfg now seeds s g) (hs : s.shutting = false) :
+    AMap.NoDup s.store ∧ (∀ id wk, s.adm.kw.get? id = some wk → 0 ≤ wk.weight) ∧
+    s.stats.keysDeleted ≤ s.stats.keysAdded := by
+  have h := reachG_sinv hr hs
+  exact ⟨h.storeNoDup, h.nonneg, by have := h.keys; omega⟩
+
+/-! ### 2. a weight decrease is added as its two's complement -/
+
+/-- `update_weight_stats`: `weightAdded` moves by `newW - oldW` modulo 2^64, increase or decrease.
+    Only `oldW - newW < 2^64` is needed (the signs `0 ≤ newW`, `0 ≤ oldW` of the task statement are not);
+    the worker guarantees it: `workerUpdateWeight` panics unless `newW - oldW` is an `i64`. -/
+theorem C16_weight_decrease_wraps_correctly (st : Stats) (newW oldW : Int)
+    (hfit : oldW - newW < (u64Mod : Int)) :
+    (((updateWeightStats st newW oldW).weightAdded : Int) - (st.weightAdded + (newW - oldW))) % (u64Mod : Int) = 0 ∧
+    (updateWeightStats st newW oldW).weightRemoved = st.weightRemoved ∧
+    (updateWeightStats st newW oldW).weightAdded < u64Mod := by
+  obtain ⟨h1, h2⟩ := updateWeightStats_spec st newW oldW hfit
+  refine ⟨?_, by rw [h2], ?_⟩
+  · simp only [u64Mod] at h1 ⊢; omega
+  · unfold updateWeightStats
+    split <;> exact Nat.mod_lt _ (by decide)
+
+/-- The bound is needed by the formula as written (`u64Mod - (oldW - newW).toNat` is a truncated subtraction
+    in the model): a decrease of `2^64 + 1` would leave the counter unchanged.  Not reachable: weights are `i64`. -/
+example : (updateWeightStats {} 0 (u64Mod + 1)).weightAdded = 0 := by decide
+
+/-! ### 3. `KeyAlreadyExists` is not a refusal by admission -/
+
+/-- A put that the worker answers `rejected keyAlreadyExists` (the key was stored between the client's check
+    and the worker's) changes no counter — in particular not `keysRejected` — and is not counted by the ghost. -/
+theorem C16_exists_rejection_not_counted {s s1 : State} {id hash : Nat} {w : Int} {k v : Nat} {ttl : Option Nat}
+    {o o' : Oracle} {ie : Option Nat} {pp : List SKey} {ev : List Evicted}
+    (h : workerPut s id hash w k v ttl o = .ok (.done s1 (.rejected .keyAlreadyExists) ie pp ev, o')) :
+    s1.stats.keysRejected = s.stats.keysRejected ∧ s1.stats = s.stats ∧
+    (∀ kind, refusedDelta (.worked kind (.rejected .keyAlreadyExists) ie pp ev) = 0) := by
+  obtain ⟨rfl, _⟩ := workerPut_exists h
+  refine ⟨rfl, rfl, fun kind => ?_⟩
+  simp [refusedDelta]
+
+/-- The same at the level of a step of a reachable state. -/
+theorem C16_exists_rejection_not_counted_step {cfg : Cfg} {now : Nat} {seeds : List Nat} {s s' : State} {g : Ghost}
+    {o o' : Oracle} {kind : String} {ie : Option Nat} {pp : List SKey} {ev : List Evicted}
+    (hr : ReachG cfg now seeds s g) (hs' : s'.shutting = false)
+    (h : step s .worker o = .ok (s', .worked kind (.rejected .keyAlreadyExists) ie pp ev, o')) :
+    s'.stats.keysRejected = s.stats.keysRejected := by
+  have hs : s.shutting = false := by
+    cases hb : s.shutting with
+    | false => rfl
+    | true => rw [step_shutting h hb] at hs'; cases hs'
+  have h1 := (reachG_sinv hr hs).refused
+  have h2 := (sinv_step (reachG_sinv hr hs) hs' h).refused
+  rw [h2, h1]
+  simp [ghostStep, refusedDelta]
+
+/-- Conversely every put refused by admission is counted, exactly once. -/
+theorem C16_refusal_counted {cfg : Cfg} {now : Nat} {seeds : List Nat} {s s' : State} {g : Ghost}
+    {o o' : Oracle} {out : Out} (hr : ReachG cfg now seeds s g) (hs' : s'.shutting = false)
+    (h : step s .worker o = .ok (s', out, o')) :
+    s'.stats.keysRejected = s.stats.keysRejected + refusedDelta out := by
+  have hs : s.shutting = false := by
+    cases hb : s.shutting with
+    | false => rfl
+    | true => rw [step_shutting h hb] at hs'; cases hs'
+  have h1 := (reachG_sinv hr hs).refused
+  have h2 := (sinv_step (reachG_sinv hr hs) hs' h).refused
+  rw [h2, h1]
+  rfl
+
+/-! ### 4. non-vacuity -/
+
+def c16cfg : Cfg :=
+  { maxWeight := 100, shards := 4, cmdCap := 4, poolSize := 2, bufSize := 4, counters := 2 }
+
+/-- hits, misses, lookups, keysAdded, keysDeleted, keys held, weightAdded, weightRemoved, used, keysRejected, refused -/
+def c16view (r : Option (State × Ghost)) : Option (List Int) :=
+  r.map (fun p => [p.1.stats.hits, p.1.stats.misses, p.2.lookups, p.1.stats.keysAdded, p.1.stats.keysDeleted,
+                   p.1.store.length, p.1.stats.weightAdded, p.1.stats.weightRemoved, p.1.adm.used,
+                   p.1.stats.keysRejected, p.2.refused])
+
+def c16run (evs : List (Ev × Oracle)) : Option (State × Ghost) := runG (State.init c16cfg 0 [1, 2]) {} evs
+
+/-- put key 5 with weight 9, two hits -/
+def c16history : List (Ev × Oracle) :=
+  [(.putW 0 5 7 9, ({} : Oracle)), (.worker, ({} : Oracle)),
+   (.get 5, { pool := [0] }), (.get 5, { pool := [1] })]
+
+/-- An all-hit history: 2 hits, 0 misses, 2 lookups; one key of weight 9. -/
+example : c16view (c16run c16history) = some [2, 0, 2, 1, 0, 1, 9, 0, 9, 0, 0] := by decide
+
+/-- An upsert then lowers the weight from 9 to 4: the worker adds `2^64 - 5` to `weightAdded`, which wraps
+    to `9 + 2^64 - 5 - 2^64 = 4`: `weightAdded - weightRemoved = 4 - 0 = used`.
+    (So in this history the counter itself is small again; it is the addend that is the huge number.) -/
+example : c16view (c16run (c16history ++ [(.upsert 0 5 none (some 4) none false, ({} : Oracle)), (.worker, ({} : Oracle))])) =
+    some [2, 0, 2, 1, 0, 1, 4, 0, 4, 0, 0] := by decide
+
+/-- The addend: on a counter below the decrease the stored value is a huge wrapped number,
+    still congruent to `0 + (4 - 9)` modulo 2^64. -/
+example : (updateWeightStats {} 4 9).weightAdded = 18446744073709551611 ∧
+    (((updateWeightStats {} 4 9).weightAdded : Int) - (0 + (4 - 9))) % (u64Mod : Int) = 0 := by decide
+
+/-- A miss, a delete, a put refused by admission (weight 200 > capacity 100) and a put answered
+    `KeyAlreadyExists` by the worker (two puts of key 8 queued before the worker runs):
+    hits 2, misses 1, lookups 3; keys 2 added − 1 deleted = 1 held; weight 9 + 3 added − 9 removed = 3 used;
+    one rejected key = one refusal (the `KeyAlreadyExists` answer is not counted). -/
+def c16history2 : List (Ev × Oracle) :=
+  c16history ++
+  [(.get 6, ({} : Oracle)), (.delete 0 5, ({} : Oracle)), (.worker, ({} : Oracle)),
+   (.putW 0 7 1 200, ({} : Oracle)), (.worker, ({} : Oracle)),
+   (.putW 0 8 1 3, ({} : Oracle)), (.putW 1 8 2 3, ({} : Oracle)), (.worker, ({} : Oracle)), (.worker, ({} : Oracle))]
+
+example : c16view (c16run c16history2) = some [2, 1, 3, 2, 1, 1, 12, 9, 3, 1, 1] := by decide
+
+/-- hypotheses of `C16_exists_rejection_not_counted` are satisfiable: the last worker step of that history
+    answers `rejected keyAlreadyExists`. -/
+example : (c16run (c16history2.take 12)).map (fun p =>
+      match step p.1 .worker ({} : Oracle) with
+      | .ok (_, .worked kind st _ _ _, _) => some (kind, st)
+      | _ => none) = some (some ("Put", .rejected .keyAlreadyExists)) := by decide
+
+/-- The states of these examples are reachable and not shut down, so `C16_exact` applies to them. -/
+example : ∃ s g, ReachG c16cfg 0 [1, 2] s g ∧ s.shutting = false ∧ s.stats.keysRejected = 1 ∧ s.stats.misses = 1 := by
+  have h : ∃ p, c16run c16history2 = some p := by
+    cases hr : c16run c16history2 with
+    | none => exact absurd (congrArg c16view hr) (by decide)
+    | some p => exact ⟨p, rfl⟩
+  obtain ⟨⟨s, g⟩, hp⟩ := h
+  refine ⟨s, g, runG_reach _ _ _ _ _ .init hp, ?_⟩
+  have hv : (c16run c16history2).map (fun p => (p.1.shutting, p.1.stats.keysRejected, p.1.stats.misses)) =
+      some (false, 1, 1) := by decide
+  rw [hp] at hv
+  simp only [Option.map_some, Option.some.injEq, Prod.mk.injEq] at hv
+  exact hv
 
 end Cached
